@@ -209,6 +209,8 @@ class DigitPairTask(T.Task):
         self.name = f"IBAN check digit pairs[{cc}]"
         self.L = table()[cc]["bban_length"]
         self.contracts = _contracts(self.L)
+        from props.ibantasks import national_contract
+        self.contracts["schwifty.bban.BBAN.validate_national_checksum"] = national_contract
 
     def setup(self, I):
         b, self.cl = CC.sym_bban(I, self.cc)
@@ -216,12 +218,13 @@ class DigitPairTask(T.Task):
         for d in (x, y):
             I.assumptions += [CC.z_digit(d), CC.Fix(d)]
             I.domains[d.decl().name()] = CC.DOMAIN["n"]
-        return {"b": b, "dd": SStr([x, y])}
+        return {"b": b, "dd": SStr([x, y]), "validate_bban": SBool(z3.Bool("validate_bban"))}
 
     def code(self, I, inp):
         from schwifty import IBAN
         text = SStr([z3.IntVal(ord(c)) for c in self.cc] + inp["dd"].chars + inp["b"].chars)
-        return I.call(IBAN, [text], {})
+        # with or without national validation: the pair must be the computed one either way
+        return I.call(IBAN, [text], {"validate_bban": inp["validate_bban"]})
 
     def observe(self, I, path):
         o = T.std_observe(path)
@@ -244,6 +247,9 @@ class DigitPairTask(T.Task):
             elif isinstance(o, T.ExcTag) and o.name == "InvalidChecksumDigits":
                 out.append((f"path {i}: rejected as InvalidChecksumDigits => the pair is not the computed one", pc,
                             dd != k))
+            elif isinstance(o, T.ExcTag) and o.name in ("InvalidBBANChecksum", "InvalidAccountCode"):
+                out.append((f"path {i}: a national rejection happens only with the flag set and the computed pair", pc,
+                            z3.And(inp["validate_bban"].t, dd == k)))
             else:
                 out.append((f"path {i}: outcome {o!r} not admitted for a structure-conforming text", pc,
                             z3.BoolVal(False)))
@@ -251,13 +257,16 @@ class DigitPairTask(T.Task):
 
     def native_code(self, inp):
         from schwifty import IBAN
-        o = T.native_obs(lambda: IBAN(self.cc + inp["dd"] + inp["b"]))
+        o = T.native_obs(lambda: IBAN(self.cc + inp["dd"] + inp["b"], validate_bban=bool(inp.get("validate_bban"))))
         return "ACCEPT" if not isinstance(o, (T.ExcTag, T.Escape)) else o
 
     def native_agree(self, inp):
         c = self.native_code(inp)
         k = 98 - (CC.Num(inp["b"] + self.cc) * 100) % 97
         want = "ACCEPT" if int(inp["dd"]) == k else T.ExcTag("InvalidChecksumDigits")
+        if inp.get("validate_bban") and int(inp["dd"]) == k and isinstance(c, T.ExcTag) and \
+                c.name in ("InvalidBBANChecksum", "InvalidAccountCode"):
+            return True, c, "computed pair, national rule rejects"
         return c == want, c, want
 
     def sample(self, rnd):
@@ -271,7 +280,7 @@ class DigitPairTask(T.Task):
             dd = f"{(k + 97) % 100 if k + 97 < 100 or k - 97 >= 0 else k:02d}" if k in (1, 2, 98) else rnd.choice(["00", "01", "99"])
         else:
             dd = f"{rnd.randrange(100):02d}"
-        return {"b": b, "dd": dd}
+        return {"b": b, "dd": dd, "validate_bban": rnd.random() < 0.4}
 
 
 def main(seed, tier):
